@@ -478,6 +478,9 @@ func leanStrListList(l [][]string) string {
 	return "[" + strings.Join(out, ", ") + "]"
 }
 
+// dagTaskLock - set by dagFacts: the task goroutine does `x.Lock(); defer x.Unlock()` before its attempt loop
+var dagTaskLock bool
+
 // dagFacts - structural facts of the dag package that the scheduler model relies on.  They are stated so that they
 // survive the extraction of helpers and the grouping of locals into a struct: channels are found wherever they are
 // made and classified by their element type, goroutine bodies are followed into the functions they call, status
@@ -608,6 +611,34 @@ func dagFacts(ff *factFile) (doneCap, semCap string, statusWrites []string, errA
 		goFirst = append(goFirst, strings.Join(stmts, "; "))
 	}
 	sort.Strings(goFirst)
+	// 2b. the task goroutine (the one whose body starts by taking a semaphore slot) locks the Task's mutex and defers
+	// the unlock before its attempt loop
+	dagTaskLock = false
+	for body := range goBodies {
+		if len(body.List) == 0 {
+			continue
+		}
+		if snd, ok := body.List[0].(*ast.SendStmt); !ok || !semNames[lastName(snd.Chan)] {
+			continue
+		}
+		for i, st := range body.List {
+			if _, isFor := st.(*ast.ForStmt); isFor {
+				break
+			}
+			es, ok := st.(*ast.ExprStmt)
+			if !ok || i+1 >= len(body.List) {
+				continue
+			}
+			ce, ok := es.X.(*ast.CallExpr)
+			if !ok || lastName(ce.Fun) != "Lock" {
+				continue
+			}
+			if df, ok := body.List[i+1].(*ast.DeferStmt); ok && lastName(df.Call.Fun) == "Unlock" &&
+				strings.TrimSuffix(exprStr(ff.fset, df.Call.Fun), ".Unlock") == strings.TrimSuffix(exprStr(ff.fset, ce.Fun), ".Lock") {
+				dagTaskLock = true
+			}
+		}
+	}
 	// 3. status writes: the constant written, and "goroutine" when the write sits in a goroutine body
 	for _, fd := range funcs {
 		inGo := []ast.Node{}
@@ -772,7 +803,8 @@ func runFactgen(repo, outPath string) int {
 	b.WriteString("def errsWriters : List String := " + leanStrList(ea) + "\n")
 	b.WriteString("/-- leading statements of every goroutine body of the package (function literals and the functions `go` statements call) -/\n")
 	b.WriteString("def goroutineHeads : List String := " + leanStrList(gofirst) + "\n")
-	b.WriteString("def maxParallelDefault : String := " + leanStr(defaults["maxParallel"]) + "\n\n")
+	b.WriteString("def maxParallelDefault : String := " + leanStr(defaults["maxParallel"]) + "\n")
+	b.WriteString(fmt.Sprintf("/-- the task goroutine locks the Task's mutex and defers the unlock before its attempt loop -/\ndef taskLockBeforeAttempts : Bool := %v\n\n", dagTaskLock))
 	// imports
 	// imports per package (the signal handling in interrupt.go is outside the model)
 	for _, p := range [][2]string{{"importsRoot", "."}, {"importsOption", "internal/option"}, {"importsHelp", "internal/help"}} {
